@@ -530,7 +530,7 @@ class BeautifulSoup(Tag):
         self.__dict__ = state
         if isinstance(self.builder, type):
             self.builder = self.builder()
-        elif not self.builder:
+        elif self.builder is None:
             # We don't know which builder was used to build this
             # parse tree, so use a default we know is always available.
             self.builder = HTMLParserTreeBuilder()
